@@ -843,6 +843,29 @@ func (fr *Frame) instr(in ssa.Instruction) {
 		fr.makeMap(i)
 		fr.storeRoot = nil
 	case *ssa.MapUpdate:
+		// map stores can be guarded like calls: guard[mapupdate:label] with callee_map, callee_key
+		// and callee_value; the map is still in its state before the store
+		if !fr.inlined && fr.contract != nil {
+			for _, g := range fr.contract.Guards {
+				if g.Name != "mapupdate" {
+					continue
+				}
+				// the label names the map variable the guard is about
+				if mv := fr.lookupDebug(g.Label, fr.curBlock, true); mv == nil || mv.Term == "" || mv.Term != fr.val(i.Map).Term {
+					continue
+				}
+				env := fr.newEnv()
+				env.contract = fr.contract
+				env.at = fr.curBlock
+				env.vars["callee_map"] = fr.val(i.Map)
+				env.vars["callee_key"] = fr.val(i.Key)
+				env.vars["callee_value"] = fr.val(i.Value)
+				x.guardsSeen[g.Name] = true
+				x.onlyProps = g.Only
+				fr.oblige("guard", "mapupdate:"+g.Label, fr.evalGuard(g, env), g.Src)
+				x.onlyProps = nil
+			}
+		}
 		fr.storeRoot = i.Map
 		fr.mapUpdate(fr.val(i.Map), fr.val(i.Key), fr.val(i.Value))
 		fr.storeRoot = nil
